@@ -4,6 +4,7 @@ import Grexv.Lemmas.Pipeline
 import Grexv.Lemmas.PrintCountG
 import Grexv.Lemmas.RepPipeline
 import Grexv.Lemmas.EndToEndR
+import Grexv.Lemmas.TrieSpells
 
 /-!
 # C05 — repetition conversion is a notation change (S4 level)
@@ -128,20 +129,55 @@ example : AssOK [[Atom.chr 97]] ∧ Counted 2 3 ∧ AssOK [[Atom.chr 97], [Atom.
 
 /-! ## the language of a whole `-r` pattern -/
 
-/-- **C05 for the model, whole pattern, all inputs** (`-r` with positive thresholds, no class option, case-sensitive, plain printing with at least
-one anchor in place, with or without capturing groups and `-e`; test cases of at most 1000 graphemes, one of them non-empty): the returned text is
-accepted by the model of `Regex::new`, and the compiled pattern matches a string of scalar values in full **iff the minimised automaton has
-an accepting path whose labels spell it**, a label `{m,n}` contributing its characters `k` times for some `m ≤ k ≤ n`.  Everything after the
-automaton — state elimination, printing with `x{m,n}` / `(?:unit){m,n}` / nested repetitions, reading by the regex crate, matching — is
-exact; together with `C16.minimize_exact_with_repetitions` (the minimisation is exact on count sequences) what `-r` accepts beyond the test
-cases is exactly what the widened labels of the *trie* stand for: known finding D2 (`["a","aab"]` → `^a{1,2}b?$`) is the widening merge
-of `find_next_state` and nothing else. -/
+/-- **C05 for the model, whole pattern, all inputs** (`-r` with positive thresholds; every subset of the class options, with or without
+`-i`, capturing groups and `-e`; plain printing with at least one anchor in place; stored test cases — the test cases, lower-cased under
+`-i` — of at most 1000 graphemes, one of them non-empty): the returned text is accepted by the model of `Regex::new`, and the compiled
+pattern matches a string of scalar values in full **iff the minimised automaton has an accepting path whose labels spell it**, a label
+`{m,n}` contributing what its atoms denote (a character, under `-i` up to simple case folding, or a member of the class that replaced
+it) `k` times for some `m ≤ k ≤ n`.  Everything after the automaton — state elimination, printing with `x{m,n}` / `(?:unit){m,n}` /
+nested repetitions, reading by the regex crate, matching — is exact; together with `C16.minimize_exact_with_repetitions` (the
+minimisation is exact on count sequences) what `-r` accepts beyond the test cases is exactly what the widened labels of the *trie* stand
+for: known finding D2 (`["a","aab"]` → `^a{1,2}b?$`) is the widening merge of `find_next_state` and nothing else. -/
 theorem repetitions_language_exact (cfg : Config) (hp : RepPrint cfg) (env : Env) (ws : List Str) (st : Stages)
-    (h : regExpFrom cfg env ws = .ok st) (hseg : ∀ w ∈ ws, Grexv.SegOK env w)
-    (hlen : ∀ w ∈ ws, (clusterOfPieces (env.segOf w)).length ≤ 1000) (hne : ∃ t ∈ ws, t ≠ [])
+    (h : regExpFrom cfg env ws = .ok st) (hseg : ∀ w ∈ storedCases cfg env ws, Grexv.SegOK env w)
+    (hlen : ∀ w ∈ storedCases cfg env ws, (clusterOfPieces (env.segOf w)).length ≤ 1000) (hne : ∃ t ∈ storedCases cfg env ws, t ≠ [])
     (s : Str) (hs : ∀ c ∈ s, Scalar c) :
-    ∃ P, Spec.parse (fmtRegExp cfg st.finalAst) = some (⟨false, false⟩, P) ∧
-      (Spec.fullMatch false P s = true ↔ ∃ ls, st.minimized.LangFrom st.minimized.init ls ∧ Dfa.Spells ls s) :=
-  rep_exact cfg hp env ws st h hseg hlen hne s hs
+    ∃ P, Spec.parse (fmtRegExp cfg st.finalAst) = some (⟨cfg.ci, false⟩, P) ∧
+      (Spec.fullMatch cfg.ci P s = true ↔ ∃ ls, st.minimized.LangFrom st.minimized.init ls ∧ SpellsA cfg.ci ls s) :=
+  rep_exact cfg hp env ws st h hseg
+    (fun w hw => by have := hlen w hw; rwa [clusterOfPieces_eq, List.length_map] at this) hne s hs
+
+/-- **C05 for the model, whole pattern, in terms of the trie** (same settings): the compiled pattern matches a non-empty string of
+scalar values in full **iff the trie — the automaton of S5, before minimisation — has an accepting path whose labels spell it**.
+Minimisation, state elimination, printing, reading and matching are exact; the only place where `-r` changes the language is the widening
+merge of `find_next_state`, which turns the labels `a` and `a{2}` of one edge into `a{1,2}` (known finding D2).  The empty string is
+excluded: the minimisation drops an empty test case (known finding D1). -/
+theorem repetitions_language_is_trie_language (cfg : Config) (hp : RepPrint cfg) (env : Env) (ws : List Str) (st : Stages)
+    (h : regExpFrom cfg env ws = .ok st) (hseg : ∀ w ∈ storedCases cfg env ws, Grexv.SegOK env w)
+    (hlen : ∀ w ∈ storedCases cfg env ws, (clusterOfPieces (env.segOf w)).length ≤ 1000) (hne : ∃ t ∈ storedCases cfg env ws, t ≠ [])
+    (s : Str) (hs : ∀ c ∈ s, Scalar c) (hsne : s ≠ []) :
+    ∃ P, Spec.parse (fmtRegExp cfg st.finalAst) = some (⟨cfg.ci, false⟩, P) ∧
+      (Spec.fullMatch cfg.ci P s = true ↔ ∃ ls, st.trie.LangFrom st.trie.init ls ∧ SpellsA cfg.ci ls s) :=
+  rep_exact_trie cfg hp env ws st h hseg
+    (fun w hw => by have := hlen w hw; rwa [clusterOfPieces_eq, List.length_map] at this) hne s hs hsne
+
+/-- read literally: case-sensitive and with no backslash in a label, a label `{m,n}` contributes its characters `k` times -/
+theorem spells_literally (ls : Word) (s : Str) (h : ∀ l ∈ ls, ∀ x ∈ l.chars, 92 ∉ x) : SpellsA false ls s ↔ Dfa.Spells ls s :=
+  spellsA_literal ls s h
+
+/-- `a{1,2}b?` read on the labels: the label sequence `a{1,2}, b` spells `ab` and `aab` and not `b` -/
+example : SpellsA false [⟨[[97]], [], 1, 2⟩, ⟨[[98]], [], 1, 1⟩] [97, 97, 98] ∧ ¬ SpellsA false [⟨[[97]], [], 1, 2⟩, ⟨[[98]], [], 1, 1⟩] [98] := by
+  have hpl : ∀ l ∈ ([⟨[[97]], [], 1, 2⟩, ⟨[[98]], [], 1, 1⟩] : Word), ∀ x ∈ l.chars, 92 ∉ x := by
+    intro l hl x hx
+    simp only [List.mem_cons, List.not_mem_nil, or_false] at hl
+    rcases hl with rfl | rfl <;> simp only [Grapheme.chars, List.mem_singleton] at hx <;> subst hx <;> decide
+  rw [spellsA_literal _ _ hpl, spellsA_literal _ _ hpl]
+  constructor
+  · exact ⟨2, [98], by decide, by decide, rfl, 1, [], by decide, by decide, rfl, rfl⟩
+  · rintro ⟨k, v, h1, _, h3, _⟩
+    simp only [Grapheme.min] at h1
+    cases k with
+    | zero => omega
+    | succ n => simp [Grapheme.chars, List.replicate_succ] at h3
 
 end Grexv.Props.C05
